@@ -88,6 +88,8 @@ class Evaluator(object):
             return self.coerce(SV(sv.t.get(cx, sv.e), sv.t.inner), t, what, st)
         if isinstance(t, TRef) and isinstance(sv.t, TRef):
             return SV(sv.e, t)
+        if isinstance(t, TMap) and isinstance(sv.t, TMap) and t.sort(cx) == sv.t.sort(cx):
+            return SV(sv.e, t)
         if isinstance(t, TOpt):
             if isinstance(sv.t, TNone):
                 return SV(t.none(cx), t)
@@ -352,7 +354,9 @@ class Evaluator(object):
         b = self.ev(node.orelse, st)
         self.guards.pop()
         if a.t != b.t:
-            if isinstance(a.t, TNone) and not isinstance(b.t, TNone):
+            if isinstance(a.t, TVal) or isinstance(b.t, TVal):
+                a, b = self.coerce(a, TVal()), self.coerce(b, TVal())
+            elif isinstance(a.t, TNone) and not isinstance(b.t, TNone):
                 ot = b.t if isinstance(b.t, TOpt) else TOpt(b.t)
                 a, b = self.coerce(a, ot), self.coerce(b, ot)
             elif isinstance(b.t, TNone):
@@ -395,6 +399,9 @@ class Evaluator(object):
             return a.e == b.e
         if isinstance(a.t, TRef) and isinstance(b.t, TRef):
             return a.e == b.e
+        if (isinstance(a.t, TVal) and isinstance(b.t, TOpt) and isinstance(b.t.inner, TVal)) or \
+                (isinstance(b.t, TVal) and isinstance(a.t, TOpt) and isinstance(a.t.inner, TVal)):
+            return self.coerce(a, TVal()).e == self.coerce(b, TVal()).e
         if isinstance(a.t, TOpt) and a.t.inner == b.t:
             return z3.And(z3.Not(a.t.is_none(cx, a.e)), a.t.get(cx, a.e) == b.e)
         if isinstance(b.t, TOpt) and b.t.inner == a.t:
